@@ -296,6 +296,7 @@ class List(MonoSubtreeView):
 
     def __class_getitem__(cls, params) -> Type["List"]:
         (element_type, limit) = params
+        limit = int(limit)  # a uint-typed parameter must not leak its type into the size arithmetic
         contents_depth = 0
         packed = False
         if isinstance(element_type, BasicView):
@@ -539,6 +540,7 @@ class Vector(MonoSubtreeView):
 
     def __class_getitem__(cls, params) -> Type["Vector"]:
         (element_view_cls, length) = params
+        length = int(length)  # a uint-typed parameter must not leak its type into the size arithmetic
         if length <= 0:
             raise Exception(f"Invalid vector length: {length}")
 
